@@ -24,6 +24,8 @@ type Solver struct {
 	Kind      string
 	timeoutMs int
 	QuickMs   int
+	tacticLeft int
+	retrying  bool
 	Stats     *SolverStats
 	log       io.Writer
 }
@@ -309,7 +311,12 @@ func (s *Solver) checkModel(pc []*Term, extra []*Term, syms []*Term, text string
 		sb.WriteString(text)
 		sb.WriteString("\n")
 	}
-	if useTactic {
+	// Hybrid: the incremental core is fastest on control-flow queries, the
+	// bit-blasting tactic on arithmetic ones.  After the incremental core
+	// timed out, the worker uses the tactic for the next queries.
+	tactic := useTactic && s.tacticLeft > 0
+	if tactic {
+		s.tacticLeft--
 		sb.WriteString("(check-sat-using qfbv)\n")
 	} else {
 		sb.WriteString("(check-sat)\n")
@@ -317,18 +324,29 @@ func (s *Solver) checkModel(pc []*Term, extra []*Term, syms []*Term, text string
 	s.send(sb.String())
 	quick := time.Duration(s.QuickMs) * time.Millisecond
 	if quick == 0 {
-		quick = 2500 * time.Millisecond
+		quick = 2000 * time.Millisecond
+		if tactic {
+			quick = 6000 * time.Millisecond
+		}
 	}
 	line, err := s.readLineT(quick)
 	res := Unknown
 	switch {
 	case err == errSolverTimeout:
-		// The incremental core is stuck: drop the process (state is rebuilt
-		// lazily from the path condition) and let the caller fall back.
-		s.Stats.Unknown++
+		// The solver is stuck: drop the process (state is rebuilt lazily from
+		// the path condition).  An incremental query is retried once with the
+		// bit-blasting tactic before the caller falls back to one-shot runs.
 		s.Stats.Timeouts++
 		s.Restart()
 		s.Stats.Restarts--
+		if !tactic && useTactic && !s.retrying {
+			s.tacticLeft = 40
+			s.retrying = true
+			r, m := s.checkModel(pc, extra, syms, text)
+			s.retrying = false
+			return r, m
+		}
+		s.Stats.Unknown++
 		return Unknown, nil
 	case err != nil:
 		s.Stats.Errors++
